@@ -9,7 +9,7 @@
 EXTENDS Integers, Sequences, FiniteSets, FiniteSetsExt, SequencesExt, Functions, TLC
 
 Verts(n)      == 0..(n-1)
-AllPairs(n)   == { e \in SUBSET Verts(n) : Cardinality(e) = 2 }
+AllPairs(n)   == { {p[1], p[2]} : p \in { q \in Verts(n) \X Verts(n) : q[1] < q[2] } }
 PairsSeq(n)   == { <<i,j>> \in Verts(n) \X Verts(n) : i < j }
 Empty(n)      == [n |-> n, E |-> {}]
 MkGraph(n, E) == [n |-> n, E |-> E]
@@ -98,4 +98,18 @@ ObsWhy(o, G) ==
     ELSE IF \E v \in Verts(o.n) : o.deg[v+1] # Deg(G, v) THEN "Degrees"
     ELSE IF \E v \in Verts(o.n) : o.nbr[v+1] # SortedSeq(Nbrs(G, v)) THEN "Neighbours"
     ELSE "ok"
+
+(* ---- "lite" observations for larger graphs: [n, m, deg, nbr] without the adjacency matrix ---- *)
+RankSetOfLite(o) == { EdgeRank({i - 1, o.nbr[i][k]}) : i \in 1..o.n, k \in 1..0 } \cup
+                    UNION { { EdgeRank({i - 1, o.nbr[i][k]}) : k \in 1..Len(o.nbr[i]) } : i \in 1..o.n }
+LiteWhy(o) ==
+    IF Len(o.deg) # o.n \/ Len(o.nbr) # o.n THEN "shape"
+    ELSE IF \E i \in 1..o.n : \E k \in 1..Len(o.nbr[i]) : o.nbr[i][k] < 0 \/ o.nbr[i][k] >= o.n \/ o.nbr[i][k] = i - 1 THEN "neighbour out of range or loop"
+    ELSE IF \E i \in 1..o.n : \E k \in 1..(Len(o.nbr[i]) - 1) : o.nbr[i][k] >= o.nbr[i][k+1] THEN "Neighbours not strictly ascending"
+    ELSE IF \E i \in 1..o.n : o.deg[i] # Len(o.nbr[i]) THEN "Degrees"
+    ELSE IF \E i \in 1..o.n : \E k \in 1..Len(o.nbr[i]) : LET j == o.nbr[i][k] + 1 IN ~\E q \in 1..Len(o.nbr[j]) : o.nbr[j][q] = i - 1 THEN "asymmetric"
+    ELSE IF 2 * o.m # FoldLeft(LAMBDA a, b : a + b, 0, o.deg) THEN "M"
+    ELSE "ok"
+GraphOfRankSet(n, R) == [n |-> n, E |-> { e \in AllPairs(n) : EdgeRank(e) \in R }]
+RankSetOf(G) == { EdgeRank(e) : e \in G.E }
 =============================================================================
